@@ -8,6 +8,7 @@ which are further `Open` calls of the same goroutine):
     Open(proc):  if proc.Status() == Terminated { return ClosedReader }          -- (1) status check
                  ⟨yield 11⟩
                  p.mu.RLock(); r, ok := readers[proc]; p.mu.RUnlock(); if ok { return r }
+                 ⟨yield 13⟩
                  p.mu.Lock(); r, ok = readers[proc]; if ok { p.mu.Unlock(); return r }
                  r = NewReader(); readers[proc] = r; p.mu.Unlock()                -- (2) insert under the lock
                  ⟨yield 12⟩
@@ -170,6 +171,7 @@ def enabled (s : State) (t : Tid) : Bool := (step s t).isSome
 def yieldSite : Pc → Option Nat
   | .openRd _ _ => some 11
   | .openGap _ _ _ => some 12
+  | .openWant _ _ => some 13
   | _ => none
 
 inductive Macro where
@@ -193,6 +195,10 @@ def release (fuel : Nat) (s : State) (t : Tid) : State × Macro :=
   match step s t with
   | none => (s, .blocked)
   | some (s', e) => advance fuel s' t e
+
+/-- Number of endpoints that were created and not closed yet (each has a running pump goroutine). -/
+def openEndpoints (s : State) : Nat :=
+  ((List.range s.nep).filter (fun e => !s.closed e)).length
 
 /-- Number of entries of port `q` among the processes `0..n-1`. -/
 def size (s : State) (q : Port) (n : Nat) : Nat :=
